@@ -22,7 +22,7 @@ ASSUMPTIONS = ['a kill happens between two events, an event being an output writ
                'outputs are compared modulo Created/LastChange/processingDateTime; logits by unpickled content; JPEGs byte-wise', '"complete page" = all its requested outputs exist when the run starts']
 N = {'quick': 0, 'thorough': 0}      # filled in by scenarios()
 CLASSES = ['single_crash', 'multi_crash', 'no_crash']
-REQUIRED = ['xml_only_scenarios', 'widened_request_scenarios', 'scenarios_with_folders_from_the_configuration_file', 'scenarios_with_glob_characters_in_the_output_path', 'lmdb_scenarios', 'decoder_batch_runs', 'scenarios', 'crash_runs', 'resume_runs', 'crashes_inside_batch', 'final_trees_compared', 'page_events', 'nothing_to_do_runs', 'real_kills_compared']
+REQUIRED = ['second_delivery_scenarios', 'xml_only_scenarios', 'widened_request_scenarios', 'scenarios_with_folders_from_the_configuration_file', 'scenarios_with_glob_characters_in_the_output_path', 'lmdb_scenarios', 'decoder_batch_runs', 'scenarios', 'crash_runs', 'resume_runs', 'crashes_inside_batch', 'final_trees_compared', 'page_events', 'nothing_to_do_runs', 'real_kills_compared']
 KNOWN_CROPS = 'line crops are the only requested output'
 IDS = ('a', 'a-1', 'b.v2', 'c.jpg_x', 'd.xml', 'e.logits.1', 'f', 'f.b', '.cover')     # 'a-1': its crop files a-1-<line>.jpg also match the pattern a-*.jpg of page 'a'; '.cover': a hidden-file name; 'b.v2' and 'f': their input PAGE XML names another image file; 'f' / 'f.b': file-name order (f.b.png < f.png) and id order (f < f.b) disagree
 ALL = ['xml', 'render', 'logits', 'alto', 'line']
@@ -394,9 +394,77 @@ def widened_request(mon, ctx):
             mon.violation('every-requested-output-present', {'first_run_outputs': ['xml', 'alto'], 'second_run_outputs': k2, 'crash_position_in_first_run': crash_at, 'missing': missing[:6], 'n_missing': len(missing)})
 
 
+def second_delivery(mon, ctx):
+    """(round 7) a second batch delivered into output folders that already hold the finished results of an earlier batch; the second batch has two pages whose
+    ids differ only in letter case and a page without any text line: kill, resume, and a further run that must find nothing left to do"""
+    from pero_ocr.core.layout import PageLayout
+    kinds = ['xml', 'logits', 'alto']
+    root_a, root_b = os.path.join(ctx.tmpdir, 'delivery_a'), os.path.join(ctx.tmpdir, 'delivery_b')
+    ids_a, ids_b = ('old1', 'old2', 'old3', 'old4', 'old5'), ('img_1', 'IMG_1', 'n2', 'blank')
+    pipeline.make_batch(root_a, ids_a, seed=5, n_lines=2)
+    pipeline.make_batch(root_b, ids_b, seed=6, n_lines=2)
+    pl = PageLayout(file=root_b + '/xml/blank.xml')
+    for r in pl.regions:
+        r.lines = []
+    pl.to_pagexml(root_b + '/xml/blank.xml')
+
+    def go(root, out, crash_at):
+        ctx.state['crash_at'], ctx.state['n'] = crash_at, 0
+        del ctx.events[:]; del ctx.proc[:]
+        return pipeline.run_main(ctx.PF, pipeline.argv_for(root, out, kinds), crash_exc=Kill), len(ctx.events), list(ctx.proc)
+    base = os.path.join(ctx.tmpdir, 'vf_C17_delivery_base')
+    r0, _, _ = go(root_a, base, None)
+    first = pipeline.snapshot(base)
+    full = os.path.join(ctx.tmpdir, 'vf_C17_delivery_full')
+    shutil.copytree(base, full)
+    r1, n_events, pr1 = go(root_b, full, None)
+    want = pipeline.snapshot(full)
+    mon.cur_desc = {'leg': 'second delivery into the same output folders', 'earlier_pages': ids_a, 'pages': ids_b}
+    ext = {'xml': 'xml', 'logits': 'logits', 'alto': 'xml'}
+    expected_files = {'%s/%s.%s' % (k, pid, ext[k]) for k in kinds for pid in ids_a + ids_b}
+    if r0 != 'ok' or not {f for f in expected_files if f.split('/')[1].startswith('old')} <= set(first):
+        mon.violation('harness:exception', {'note': 'the earlier delivery of the second-delivery leg did not behave as planned', 'status': r0, 'files': len(first)})
+        return
+    if r1 != 'ok':
+        mon.violation('resumed-run-exits-cleanly', {'configuration': 'uninterrupted run of a second delivery into folders holding an earlier one', 'status': r1})
+        return
+    if expected_files - set(want):
+        mon.violation('every-requested-output-present', {'configuration': 'uninterrupted run of a second delivery into folders holding %d finished pages of an earlier one' % len(ids_a), 'pages': ids_b,
+                      'missing': sorted(expected_files - set(want))[:6], 'pages_processed': pr1})
+        return
+    positions = sorted(set(range(0, n_events + 1, 2 if ctx.tier == 'quick' else 1)) | {n_events})
+    for crash_at in positions:
+        out = os.path.join(ctx.tmpdir, 'vf_C17_delivery_%d' % crash_at)
+        shutil.copytree(base, out)
+        ra, _, _ = go(root_b, out, crash_at)
+        before = pipeline.snapshot(out)
+        complete = {pid for pid in ids_b if all(('%s/%s.%s' % (k, pid, {'xml': 'xml', 'logits': 'logits', 'alto': 'xml'}[k])) in before for k in kinds)}
+        rb, _, prb = go(root_b, out, None)
+        rc, _, prc = go(root_b, out, None)
+        mon.count('second_delivery_scenarios')
+        mon.count('extra_evaluations')
+        got = pipeline.snapshot(out)
+        w = {'configuration': 'second delivery into folders holding %d finished pages of an earlier one' % len(ids_a), 'pages': ids_b, 'crash_position': crash_at, 'statuses': [ra, rb, rc]}
+        if rb != 'ok':
+            mon.violation('resumed-run-exits-cleanly', w)
+        elif rc != 'ok':
+            mon.violation('nothing-left-to-do-exits-cleanly', w)
+        elif sorted(set(want) - set(got)):
+            mon.violation('every-requested-output-present', dict(w, missing=sorted(set(want) - set(got))[:6], pages_processed_by_the_resume=prb))
+        elif any(got[k] != want[k] for k in want):
+            mon.violation('outputs-equal-uninterrupted-run', dict(w, different=[k for k in want if got[k] != want[k]][:6]))
+        elif set(prb) & complete:
+            mon.violation('complete-pages-not-processed-again', dict(w, reprocessed=sorted(set(prb) & complete), complete_before_the_resume=sorted(complete)))
+        elif prc:
+            mon.violation('complete-pages-not-processed-again', dict(w, reprocessed=prc, run='third run, nothing left to do'))
+        shutil.rmtree(out, ignore_errors=True)
+
+
 def extra(mon, ctx):
     if ctx.shard == 1 % ctx.nshards:
         decoder_batch(mon, ctx)
+    if ctx.shard == 4 % ctx.nshards:
+        second_delivery(mon, ctx)
     if ctx.shard == 2 % ctx.nshards:
         xml_only_batch(mon, ctx)
     if ctx.shard == 3 % ctx.nshards:
